@@ -89,8 +89,12 @@ func dataBlock(r *rand.Rand) []interface{} {
 		n = r.Intn(40)
 	}
 	a := make([]interface{}, n)
+	zero := r.Intn(6) == 0 // an all-zero block (reserved space) is data like any other
 	for i := range a {
 		a[i] = r.Intn(256)
+		if zero {
+			a[i] = 0
+		}
 	}
 	return a
 }
@@ -267,6 +271,20 @@ func randomScenario(r *rand.Rand, profile string) scenarioT {
 	}
 	if profile == "labels" {
 		return labelScenario(r)
+	}
+	if profile == "farlist" {
+		// a program longer than 64 KiB with instructions behind the big block: listing offsets do not fit 16 bits
+		sc := scenarioT{Gen: true}
+		n := 0x10000 - 8 + r.Intn(24)
+		blk := make([]interface{}, n)
+		for i := range blk {
+			blk[i] = (i*5 + 17) & 0xFF
+		}
+		calls := []callT{{"SetBase", []interface{}{(1 + r.Intn(0x7C)) << 16}}, {"NOP", []interface{}{}}, {"EmitBytes", blk},
+			{"SEP", []interface{}{0x30}}, {"LDA_imm8_b", []interface{}{0x42}}, {"RTS", []interface{}{}}}
+		sc.Cap = n + 16
+		sc.Calls = calls
+		return sc
 	}
 	if profile == "far" {
 		// branches whose label is almost a whole bank away (distances that wrap to a small value in 16-bit arithmetic)
